@@ -104,14 +104,18 @@ Definition ps_opd (filt mask : arr S) : arr S :=
 Definition ps_count (opd : arr S) : Z := count2 (fun x => negb (isz x)) opd.
 Definition ps_ss (opd : arr S) : S :=
   sumZ (nr opd) (fun i => sumZ (nc opd) (fun j => (get opd i j * get opd i j)%K)).
+(* the scale factor is computed once (count and sum of squares of the masked draw), then applied *)
+Definition ps_scale_with (opd : arr S) (c : Z) (s : S) (rms : S) (i j : Z) : S :=
+  (get opd i j * nrm c s * rms)%K.
 Definition ps_scale (opd : arr S) (rms : S) (i j : Z) : S :=
-  (get opd i j * nrm (ps_count opd) (ps_ss opd) * rms)%K.
+  ps_scale_with opd (ps_count opd) (ps_ss opd) rms i j.
 Definition power_spectrum_post (filt mask : arr S) (rms : S) : option (arr S) :=
   let opd := ps_opd filt mask in
-  if ps_count opd =? 0 then None
-  else Some (mkArr (nr mask) (nc mask) (ps_scale opd rms)).
+  let c := ps_count opd in
+  if c =? 0 then None
+  else let s := ps_ss opd in Some (mkArr (nr mask) (nc mask) (ps_scale_with opd c s rms)).
 End PowerSpectrum.
-Arguments ps_opd {S}. Arguments ps_count {S}. Arguments ps_ss {S}. Arguments ps_scale {S}.
+Arguments ps_opd {S}. Arguments ps_count {S}. Arguments ps_ss {S}. Arguments ps_scale {S}. Arguments ps_scale_with {S}.
 Arguments power_spectrum_post {S}.
 
 (* ------------------------------------------------------------------------------------------ *)
